@@ -7,6 +7,8 @@ import Sgz.Model.Writer
 import Sgz.Model.Window
 import Sgz.Model.Derived
 import Sgz.Model.Header
+import Sgz.Model.Container
+import Sgz.Model.HeaderReads
 /-!
 # Tie/Source — the model's arithmetic is the arithmetic of the source as it is now
 
@@ -326,5 +328,36 @@ theorem header_reader_offsets (h : Header.Bytes) :
 
 /-- bytes of one header array as the 3D converter states them -/
 theorem header_array_bytes (nIl nXl : Nat) : Gen.w_array_bytes_value nIl nXl = nXl * nIl * 32 / 8 := rfl
+
+/-! ### headers.py / footer writers -/
+
+/-- where a reader of the file's version looks for stored array `k` (the stride is `padded_entry` above for files after 0.2.1) -/
+theorem header_array_offset (version nHB d len k : Nat) :
+    Container.readerFooterOffset version nHB d len k =
+      Gen.hdr_offset 4096 d k nHB (if Ver.paddedFooter version then pad len 512 else len) := by
+  unfold Container.readerFooterOffset Gen.hdr_offset; rfl
+
+/-- … which is the offset the header-read model uses, with `footer` the offset of array 0 -/
+theorem header_array_offset_model (h : HeaderReads.HFile) (nHB d k : Nat) (hf : h.footer = 4096 * nHB + 4096 * d) :
+    HeaderReads.offsetOf h k = Gen.hdr_offset 4096 d k nHB h.stride := by
+  unfold HeaderReads.offsetOf Gen.hdr_offset; rw [hf]
+
+/-- a table row is a constant exactly when the model says so -/
+theorem header_row_constant (c : Int) (code : Nat) :
+    Gen.hdr_invariant c code ↔ (c != 0 || code == 0) = true := by
+  unfold Gen.hdr_invariant
+  simp only [Bool.or_eq_true, bne_iff_ne, ne_eq, beq_iff_eq]
+  constructor <;> intro h <;> rcases h with h | h
+  · exact .inl h
+  · exact .inr (by exact_mod_cast h)
+  · exact .inl h
+  · exact .inr (by exact_mod_cast h)
+
+/-- every footer writer pads an array to the next multiple of 512 bytes -/
+theorem footer_padding (len : Nat) :
+    (len : Int) + Gen.footer_pad_segy len = Container.footerArrayBytes len
+    ∧ (len : Int) + Gen.footer_pad_numpy len = Container.footerArrayBytes len := by
+  unfold Gen.footer_pad_segy Gen.footer_pad_numpy Container.footerArrayBytes
+  constructor <;> omega
 
 end Sgz.Tie
